@@ -21,21 +21,21 @@ package pytorch
 //@ end
 
 // the worker segment size: pod-template annotation kai.scheduler/segment-size, else the same annotation of the Worker
-// replica template inside the job. C10: non-numeric = error; the JOB's value must be positive.
-// FINDING (C10): the POD's value is NOT checked for positivity - "0" is returned as a valid size and the caller divides
-// by it (buildWorkerSubGroups: workers / segmentSize) => integer divide by zero panic. See report.
+// replica template inside the job. C10: non-numeric or non-positive = error on BOTH paths.
+// (FINDING, fixed in /repo c8c3a40: the pod's own value was not checked for positivity; "0" made the caller divide by
+// zero. [positive] below + the division no-panic obligations of buildWorkerSubGroups bring it back if the fix is reverted.)
 //@ define podSegStr(pod *v1.Pod) string = pod.Annotations[constants.SegmentSizeKey]
 //@ define podSegSet(pod *v1.Pod) bool = (constants.SegmentSizeKey in pod.Annotations) && podSegStr(pod) != ""
 //@ define tplSegPath() int = defaultgrouper.pk5("Worker", "template", "metadata", "annotations", constants.SegmentSizeKey)
 //@ define tplSegSet(rs map[string]interface{}) bool = defaultgrouper.nStrFound(rs, tplSegPath()) && defaultgrouper.nStr(rs, tplSegPath()) != ""
-//@ define segFails(pod *v1.Pod, rs map[string]interface{}) bool = ite(podSegSet(pod), tuple1(strconv.Atoi(podSegStr(pod))) != nil, defaultgrouper.nStrErr(rs, tplSegPath()) != nil || (tplSegSet(rs) && (tuple1(strconv.Atoi(defaultgrouper.nStr(rs, tplSegPath()))) != nil || tuple0(strconv.Atoi(defaultgrouper.nStr(rs, tplSegPath()))) <= 0)))
+//@ define segFails(pod *v1.Pod, rs map[string]interface{}) bool = ite(podSegSet(pod), tuple1(strconv.Atoi(podSegStr(pod))) != nil || tuple0(strconv.Atoi(podSegStr(pod))) <= 0, defaultgrouper.nStrErr(rs, tplSegPath()) != nil || (tplSegSet(rs) && (tuple1(strconv.Atoi(defaultgrouper.nStr(rs, tplSegPath()))) != nil || tuple0(strconv.Atoi(defaultgrouper.nStr(rs, tplSegPath()))) <= 0)))
 //@ func getSegmentSize
 //@   props C18 C10
 //@   requires pod != nil
 //@   ensures [errIff] (result2 != nil) == segFails(pod, replicaSpecs)
 //@   ensures [found] result2 == nil ==> result1 == (podSegSet(pod) || tplSegSet(replicaSpecs))
 //@   ensures [size] result2 == nil && result1 ==> result0 == ite(podSegSet(pod), tuple0(strconv.Atoi(podSegStr(pod))), tuple0(strconv.Atoi(defaultgrouper.nStr(replicaSpecs, tplSegPath()))))
-//@   ensures [jobValuePositive] result2 == nil && result1 && !podSegSet(pod) ==> result0 >= 1
+//@   ensures [positive] result2 == nil && result1 ==> result0 > 0
 //@   ensures [notFoundZero] !(result2 == nil && result1) ==> result0 == 0 && !result1
 //@ end
 
@@ -81,21 +81,48 @@ package pytorch
 //@   ensures [ofTemplates] result != nil ==> fresh(result) && result.Topology == ptTopology(pod, replicaSpecs, topOwner) && result.RequiredTopologyLevel == wAnn(pod, replicaSpecs, constants.SegmentTopologyRequiredPlacementKey) && result.PreferredTopologyLevel == wAnn(pod, replicaSpecs, constants.SegmentTopologyPreferredPlacementKey)
 //@ end
 
+// k8s.io/utils/ptr.To (generic library): a new cell holding the value
+//@ func k8s.io/utils/ptr.To
+//@   fresh
+//@   ensures [assumed] result != nil && *result == v
+//@   note assumed library model of ptr.To (allocates a copy)
+//@ end
+
+// C18 "sub-groups depend only on the owner chain and pod template": no Worker role = no worker sub-groups; without a
+// segment size one "worker" sub-group with the remaining minimum; with one, a parent "worker" sub-group plus
+// ceil(workers/size) segments. C10: the divisions by the segment size cannot panic (the size is positive on every path).
+// NOT DECIDED: names / minimums of the individual segments (loop over an appended slice).
+//@ define segFound(pod *v1.Pod, rs map[string]interface{}) bool = podSegSet(pod) || tplSegSet(rs)
+//@ func buildWorkerSubGroups
+//@   props C18 C10
+//@   requires pod != nil
+//@   loop 1
+//@     invariant len(subGroups) >= 1
+//@   ensures [errorNil] result1 != nil ==> result0 == nil
+//@   ensures [noWorkerRole] !("Worker" in replicaSpecs) ==> result1 == nil && len(result0) == 0
+//@   ensures [segmentSizeError] ("Worker" in replicaSpecs) && defaultgrouper.nI64Err(replicaSpecs, defaultgrouper.pk2("Worker", "replicas")) == nil && segFails(pod, replicaSpecs) ==> result1 != nil
+//@   ensures [unsegmented] ("Worker" in replicaSpecs) && result1 == nil && !segFound(pod, replicaSpecs) ==> len(result0) == 1 && result0[0] != nil && result0[0].Name == strings.ToLower("Worker") && result0[0].MinAvailable == workerMinAvailable && result0[0].Parent == nil
+//@   ensures [segmentedHasParent] ("Worker" in replicaSpecs) && result1 == nil && segFound(pod, replicaSpecs) ==> len(result0) >= 1
+//@ end
+
+//@ func (*PyTorchGrouper).buildSubGroups
+//@   props C18 C10
+//@   requires ptg != nil && topOwner != nil && pod != nil
+//@   ensures [errorNil] result1 != nil ==> result0 == nil
+//@   ensures [unreadableSpecsIsError] defaultgrouper.nMapErr(topOwner.Object, defaultgrouper.pk2("spec", "pytorchReplicaSpecs")) != nil || !defaultgrouper.nMapFound(topOwner.Object, defaultgrouper.pk2("spec", "pytorchReplicaSpecs")) ==> result1 != nil
+//@ end
+
 // C18: PyTorchJob = Kubeflow metadata; MinAvailable is spec.runPolicy.schedulingPolicy.minAvailable if set, else
 // spec.elasticPolicy.minReplicas if set, else the total number of replicas - all functions of the job object.
-// NOT UNDER CONTRACT: buildWorkerSubGroups / buildSubGroups (segment sub-groups): buildWorkerSubGroups panics on a pod
-// annotation segment-size "0" (FINDING, see getSegmentSize), so no no-panic claim can be made for it; the sub-group list
-// of the result is therefore not specified here.
 //@ define ok64(o *unstructured.Unstructured, p int) bool = defaultgrouper.nI64Err(o.Object, p) == nil && defaultgrouper.nI64Found(o.Object, p)
 //@ define ptMin(o *unstructured.Unstructured) int = ite(ok64(o, minAvailPath()), defaultgrouper.nI64(o.Object, minAvailPath()), ite(ok64(o, minReplicasPath()), defaultgrouper.nI64(o.Object, minReplicasPath()), kubeflow.kfMinAvailable(o, "pytorchReplicaSpecs")))
 //@ func (*PyTorchGrouper).GetPodGroupMetadata
-//@   props C18
+//@   props C18 C10
 //@   requires ptg != nil && ptg.KubeflowDistributedGrouper != nil && ptg.KubeflowDistributedGrouper.DefaultGrouper != nil && topOwner != nil && pod != nil
-//@   nopanic off
-//@   note nopanic off: this unit's callee buildSubGroups/buildWorkerSubGroups is not under contract (it panics on pod annotation segment-size "0": reported finding); the clauses below are about the fields computed before that call
 //@   ensures [malformedJobIsError] kubeflow.kfFailsWith(topOwner, "pytorchReplicaSpecs", false) ==> result1 != nil
 //@   ensures [errorNoMetadata] result1 != nil ==> result0 == nil
 //@   ensures [minAvailableOfOwner] result1 == nil ==> result0.MinAvailable == ptMin(topOwner)
 //@   ensures [nameOfOwnerOnly] result1 == nil ==> result0.Name == defaultgrouper.pgName(topOwner)
 //@   ensures [ownerRef] result1 == nil ==> defaultgrouper.baseOwnerRef(result0, topOwner)
+//@   ensures [common] result1 == nil ==> defaultgrouper.baseCommon(result0, ptg.KubeflowDistributedGrouper.DefaultGrouper, topOwner, pod)
 //@ end
